@@ -23,6 +23,11 @@ void _dbus_real_assert (dbus_bool_t condition, const char *condition_text, const
 void _dbus_verbose_real (const char *file, const int line, const char *function, const char *format, ...) {}
 static const char some_text[] = "e";
 #define ERR_SET(e) ((e)->name != NULL)
+/* error names by their distinguishing letters (loop-free): org.freedesktop.DBus.Error.<X>: [27] = first letter of X,
+ * [36] tells MatchRuleInvalid from MatchRuleNotFound */
+#define ERRNAME_IS_INVALID(n) ((n) != NULL && (n)[27] == 'M' && (n)[36] == 'I')
+#define ERRNAME_IS_NOMEM(n) ((n) != NULL && (n)[27] == 'N' && (n)[28] == 'o' && (n)[29] == 'M')
+#define ERRNAME_IS_LIMITS(n) ((n) != NULL && (n)[27] == 'L')
 #define g_oom verif_p_oom
 #define g_validated_str verif_p_vstr
 #define g_validated_by verif_p_vby
@@ -37,10 +42,15 @@ dbus_bool_t verif_stub_error_is_set (const DBusError *e) { PRE (e != NULL, "dbus
 void verif_set_error (DBusError *e, const char *name) { PRE (name != NULL && (e == NULL || !ERR_SET (e)), "dbus_set_error: error not already set"); if (e) { e->name = name; e->message = some_text; } }
 void verif_stub_set_error_const (DBusError *e, const char *name, const char *message) { PRE (name != NULL && (e == NULL || !ERR_SET (e)), "dbus_set_error_const: error not already set"); if (e) { e->name = name; e->message = message; } }
 
+#if VERIF_FN == 2
+#define C07_COUNT_VALIDATION g_validations++
+#else
+#define C07_COUNT_VALIDATION ((void) 0)    /* inside a contract loop an unbounded counter would need its own invariant */
+#endif
 /* validators of dbus-marshal-validate.c (exact grammar: units C16.*): which one was applied to which value */
 enum { V_NONE = 0, V_BUS_NAME, V_INTERFACE, V_MEMBER, V_PATH, V_BUS_NAMESPACE, V_TYPE };
 #define VALIDATOR(fn, tag) dbus_bool_t verif_stub_##fn (const DBusString *str, int start, int len) \
-  { PRE (str != NULL && start == 0, #fn ": whole value"); g_validated_str = str; g_validated_by = tag; g_validated_ok = nondet_bool (); g_validations++; return g_validated_ok; }
+  { PRE (str != NULL && start == 0, #fn ": whole value"); g_validated_str = str; g_validated_by = tag; g_validated_ok = nondet_bool (); C07_COUNT_VALIDATION; return g_validated_ok; }
 VALIDATOR (validate_bus_name, V_BUS_NAME) VALIDATOR (validate_interface, V_INTERFACE) VALIDATOR (validate_member, V_MEMBER)
 VALIDATOR (validate_path, V_PATH) VALIDATOR (validate_bus_namespace, V_BUS_NAMESPACE)
 
@@ -91,13 +101,13 @@ void harness (void)
   _Bool occupied = kind != REF_KEY_NONE && (r.flags & BUS_MATCH_ARGS) && r.args_len > argno && r.args[argno] != NULL;
   __CPROVER_assert (ok == 0 || ok == 1, "post0 boolean");
   __CPROVER_assert (ok == !ERR_SET (&err), "post1 FALSE <=> error set");
-  __CPROVER_assert (IMP (kind == REF_KEY_NONE, !ok && err.name != NULL && ref_streq (err.name, DBUS_ERROR_MATCH_RULE_INVALID)), "post2 a key that is not argN / argNpath / arg0namespace with N <= 63 is refused with MatchRuleInvalid");
+  __CPROVER_assert (IMP (kind == REF_KEY_NONE, !ok && ERRNAME_IS_INVALID (err.name)), "post2 a key that is not argN / argNpath / arg0namespace with N <= 63 is refused with MatchRuleInvalid");
   __CPROVER_assert (IMP (ok, kind != REF_KEY_NONE && g_set_arg_calls == 1 && g_set_arg == argno && (g_set_is_path != 0) == (kind == REF_KEY_ARGPATH) && (g_set_is_ns != 0) == (kind == REF_KEY_ARG0NAMESPACE)),
                     "post3 TRUE => exactly one bus_match_rule_set_arg with the index and kind the key names");
-  __CPROVER_assert (IMP (occupied, !ok && ref_streq (err.name, DBUS_ERROR_MATCH_RULE_INVALID)), "post4 an argument index matched already is refused with MatchRuleInvalid");
+  __CPROVER_assert (IMP (occupied, !ok && ERRNAME_IS_INVALID (err.name)), "post4 an argument index matched already is refused with MatchRuleInvalid");
   __CPROVER_assert (IMP (kind == REF_KEY_ARG0NAMESPACE && !ok && !g_oom && !occupied, g_validations == 1 && !g_validated_ok), "post5 arg0namespace is refused only for an invalid namespace value");
-  __CPROVER_assert (IMP (!ok && !g_oom, ref_streq (err.name, DBUS_ERROR_MATCH_RULE_INVALID)), "post6 every refusal other than OOM is MatchRuleInvalid");
-  __CPROVER_assert (IMP (g_oom, !ok && ref_streq (err.name, DBUS_ERROR_NO_MEMORY)), "post7 OOM => FALSE with NoMemory");
+  __CPROVER_assert (IMP (!ok && !g_oom, ERRNAME_IS_INVALID (err.name)), "post6 every refusal other than OOM is MatchRuleInvalid");
+  __CPROVER_assert (IMP (g_oom, !ok && ERRNAME_IS_NOMEM (err.name)), "post7 OOM => FALSE with NoMemory");
   __CPROVER_assert (IMP (!ok && !g_oom, g_set_arg_calls == 0), "post8 a refused key sets nothing");
   if (ok && kind == REF_KEY_ARG) REACH ("argN"); if (ok && kind == REF_KEY_ARGPATH) REACH ("argNpath"); if (ok && kind == REF_KEY_ARG0NAMESPACE) REACH ("arg0namespace");
   if (!ok && kind == REF_KEY_NONE) REACH ("bad-key"); if (!ok && occupied) REACH ("duplicate"); if (g_oom) REACH ("oom");
@@ -177,13 +187,13 @@ void harness (void)
   g_oom = 0; g_ntok = 0; g_tokenize_calls = 0; g_new_calls = 0; g_unrefs = 0; verif_w = 0; verif_w2 = 0; g_validated_by = V_NONE; g_tmp = NULL; g_tmp_value = NULL;
   BusMatchRule *rule = bus_match_rule_parse (c, &text, &err);
   __CPROVER_assert ((rule == NULL) == ERR_SET (&err), "post1 NULL <=> error set");
-  __CPROVER_assert (IMP (verif_len > DBUS_MAXIMUM_MATCH_RULE_LENGTH, rule == NULL && ref_streq (err.name, DBUS_ERROR_LIMITS_EXCEEDED) && g_tokenize_calls == 0 && g_new_calls == 0),
+  __CPROVER_assert (IMP (verif_len > DBUS_MAXIMUM_MATCH_RULE_LENGTH, rule == NULL && ERRNAME_IS_LIMITS (err.name) && g_tokenize_calls == 0 && g_new_calls == 0),
                     "post2 more than DBUS_MAXIMUM_MATCH_RULE_LENGTH bytes => LimitsExceeded before anything else happens");
   __CPROVER_assert (IMP (rule != NULL, rule == &g_rule_obj && g_tokenize_calls == 1 && verif_w == g_ntok && g_unrefs == 0),
                     "post3 rule => every token was handled by exactly one setter (known key, validated value, not a duplicate: the setter preconditions)");
   __CPROVER_assert (IMP (rule == NULL && g_new_calls == 1 && !(g_oom && g_unrefs == 0 && g_tokenize_calls == 0), g_unrefs == 1), "post4 failure after the rule was allocated => it is released exactly once");
-  __CPROVER_assert (IMP (rule == NULL && !g_oom && verif_len <= DBUS_MAXIMUM_MATCH_RULE_LENGTH, ref_streq (err.name, DBUS_ERROR_MATCH_RULE_INVALID)), "post5 every refusal other than OOM / length is MatchRuleInvalid");
-  __CPROVER_assert (IMP (ERR_SET (&err) && ref_streq (err.name, DBUS_ERROR_LIMITS_EXCEEDED), verif_len > DBUS_MAXIMUM_MATCH_RULE_LENGTH), "post6 LimitsExceeded only for an over-long rule");
+  __CPROVER_assert (IMP (rule == NULL && !g_oom && verif_len <= DBUS_MAXIMUM_MATCH_RULE_LENGTH, ERRNAME_IS_INVALID (err.name)), "post5 every refusal other than OOM / length is MatchRuleInvalid");
+  __CPROVER_assert (IMP (ERR_SET (&err) && ERRNAME_IS_LIMITS (err.name), verif_len > DBUS_MAXIMUM_MATCH_RULE_LENGTH), "post6 LimitsExceeded only for an over-long rule");
   __CPROVER_assert (IMP (g_tokenize_calls == 1 && g_ntok >= 0, verif_w2 == 2 * g_ntok), "post7 every token string is freed exactly once");
   if (rule) REACH ("rule"); else REACH ("refused"); if (rule && g_ntok == NTOK) REACH ("sixteen-keys"); if (rule == NULL && verif_len > 1024) REACH ("too-long");
   if (rule == NULL && g_oom) REACH ("oom"); if (rule && (rule->flags & BUS_MATCH_PATH_NAMESPACE)) REACH ("path-namespace"); if (rule && (rule->flags & BUS_MATCH_ARGS)) REACH ("args");
